@@ -15,6 +15,7 @@ from typing import Dict, List, Optional, Set, Tuple
 from ..core import AnalysisError, Func, Repo, dotted, norm, parents
 from ..cfg import CFG
 from ..report import Check
+from ..util import single_value as _single_value
 from ..util import call_name, calls_in, values_of, excluded_by, eval3
 
 DOC = 'pydoctor.model.Documentable'
@@ -104,9 +105,17 @@ def run(repo: Repo, chk: Check, thorough: bool = False) -> None:
                repo.loc(hr.mod, c))
         # scenario "the origin module has an __all__ and lists the name": the move must be unreachable in it, however the guard is spelled
         # (`if all is None or name not in all: move` / `if all is not None and name in all: return`)
+        def _nm(e: ast.AST) -> str:
+            # a named intermediate (`origin_exports = origin_module.all`) is the expression it names
+            if isinstance(e, ast.Name):
+                v_ = _single_value(hr, e.id)
+                if v_ is not None:
+                    return norm(v_)
+            return norm(e)
+
         def origin_exports(e: ast.AST) -> Optional[bool]:
             if isinstance(e, ast.Compare) and len(e.ops) == 1:
-                l, r = norm(e.left), norm(e.comparators[0])
+                l, r = _nm(e.left), _nm(e.comparators[0])
                 if isinstance(e.ops[0], ast.Is) and l.endswith('.all') and r == 'None':
                     return False
                 if isinstance(e.ops[0], ast.In) and l == ps[2] and r.endswith('.all'):
@@ -121,9 +130,27 @@ def run(repo: Repo, chk: Check, thorough: bool = False) -> None:
                    ((x.func.attr == 'get' and norm(x.func.value) == f'{ps[4]}.contents') or
                     (x.func.attr in ('resolveName', 'expandName') and norm(x.func.value) == ps[4]))] + \
                   [x for x in hr.walk() if isinstance(x, ast.Subscript) and norm(x.value) == f'{ps[4]}.contents']
+        looked_up = [norm(x.args[0] if isinstance(x, ast.Call) else x.slice) for x in lookups]
+        if not lookups:
+            # the lookup extracted into a private helper of the class: `ob = self._lookup(origin_module, origin_name)` - its parameters stand for the arguments
+            for hc in calls_in(hr):
+                for g_ in [g for g in repo.funcs.values() if g.cls is hr.cls and g is not hr and g.name == call_name(hc) and g.name.startswith('_')]:
+                    gpar = [p_.arg for p_ in g_.params() if p_.arg not in ('self', 'cls')]
+                    amap = {gp_: norm(a_) for gp_, a_ in zip(gpar, hc.args)}
+                    amap.update({k.arg: norm(k.value) for k in hc.keywords if k.arg})
+                    for x in calls_in(g_):
+                        if isinstance(x.func, ast.Attribute) and x.args and \
+                                ((x.func.attr == 'get' and norm(x.func.value).endswith('.contents') and amap.get(norm(x.func.value)[:-len('.contents')]) == ps[4]) or
+                                 (x.func.attr in ('resolveName', 'expandName') and amap.get(norm(x.func.value)) == ps[4])):
+                            lookups.append(x)
+                            looked_up.append(amap.get(norm(x.args[0]), norm(x.args[0])))
+                    for x in g_.walk():
+                        if isinstance(x, ast.Subscript) and norm(x.value).endswith('.contents') and amap.get(norm(x.value)[:-len('.contents')]) == ps[4]:
+                            lookups.append(x)
+                            looked_up.append(amap.get(norm(x.slice), norm(x.slice)))
         if not lookups:
             chk.error('R07.2: the lookup of the re-exported object in the origin module was not found in _handleReExport')
-        badl = [x for x in lookups if norm(x.args[0] if isinstance(x, ast.Call) else x.slice) != ps[2]]
+        badl = [x for x, nm_ in zip(lookups, looked_up) if nm_ != ps[2]]
         chk.ob('R07.2', f'{MV}._handleReExport :: the object is looked up under its name in the defining module', not badl,
                f'{len(lookups)} lookup(s) in {ps[4]} use {ps[2]}' if not badl else
                f'`{norm(badl[0])[:60]}` looks in the defining module under another name than {ps[2]}: for `from m import A as B` with B exported, '
@@ -274,11 +301,21 @@ def run(repo: Repo, chk: Check, thorough: bool = False) -> None:
            '(a defining module inside a package) is never matched and the alias left by the move is not consulted', repo.loc(fo.mod, sp_[0]))
     # the walk up the object tree consults every scope, the root included: the loop is controlled by the cursor itself, not by its parent
     wl = [n for n in lk.walk() if isinstance(n, ast.While) and any(call_name(c) == 'resolveName' for st in n.body for c in ast.walk(st) if isinstance(c, ast.Call))]
-    if not wl:
+    # ... or the walk is a private generator of the class that yields the cursor (`for src in self._enclosing_scopes(): src.resolveName(...)`)
+    wl_gen: List[Tuple[ast.While, str]] = []
+    for fl in [n for n in lk.walk() if isinstance(n, ast.For) and isinstance(n.iter, ast.Call) and isinstance(n.target, ast.Name) and
+               any(isinstance(c, ast.Call) and call_name(c) == 'resolveName' and isinstance(c.func, ast.Attribute) and norm(c.func.value) == n.target.id
+                   for st in n.body for c in ast.walk(st))]:
+        for g_ in [g for g in repo.funcs.values() if g.cls is lk.cls and g is not lk and g.name == call_name(fl.iter) and g.name.startswith('_')]:
+            for w_ in [x for x in g_.walk() if isinstance(x, ast.While)]:
+                ys = [y.value.id for st in w_.body for y in ast.walk(st) if isinstance(y, ast.Yield) and isinstance(y.value, ast.Name)]
+                if ys:
+                    wl_gen.append((w_, ys[0]))
+    if not wl and not wl_gen:
         raise AnalysisError('R07.3: the walk-up loop of _resolve_identifier_xref was not found')
-    for n in wl:
-        cur_ = next((c.func.value.id for st in n.body for c in ast.walk(st) if isinstance(c, ast.Call) and call_name(c) == 'resolveName' and
-                     isinstance(c.func, ast.Attribute) and isinstance(c.func.value, ast.Name)), None)
+    for n, cur0 in [(w_, None) for w_ in wl] + wl_gen:
+        cur_ = cur0 or next((c.func.value.id for st in n.body for c in ast.walk(st) if isinstance(c, ast.Call) and call_name(c) == 'resolveName' and
+                             isinstance(c.func, ast.Attribute) and isinstance(c.func.value, ast.Name)), None)
         okw = cur_ is not None and not any(isinstance(x, ast.Attribute) and x.attr == 'parent' for x in ast.walk(n.test)) and \
             any(isinstance(x, ast.Name) and x.id == cur_ for x in ast.walk(n.test))
         chk.ob('R07.3', 'linker._resolve_identifier_xref :: the walk up the tree includes the root', okw,
